@@ -95,6 +95,26 @@ fn run_case(_kind: &str, idx: u64, rng: &mut Rng, mon: &mut Mon, _tier: Tier) {
             cell.add_random_obstacle(rng);
         }
     }
+    // a sixth of the cells with a base: the base mesh is a designed box next to a link or the tool of an offset
+    // posture of J1..J3 (half of them without any environment): the candidate must be withheld because of the base
+    if with_base && rng.bool(0.17) {
+        let j = rng.usize(3);
+        let side = rng.bool(0.5);
+        if side {
+            from[j] = from[j].min(initial[j] - rng.range(0.5, 2.5));
+        } else {
+            to[j] = to[j].max(initial[j] + rng.range(0.5, 2.5));
+        }
+        let mut cand = initial;
+        cand[j] = if side { from[j] } else { to[j] };
+        let target = if with_tool && rng.bool(0.3) { J_TOOL } else { j.max(1) + rng.usize(6 - j.max(1)) };
+        let gap = rng.range(-0.03, 0.004);
+        cell.design_base(rng, &cand, target, gap);
+        if rng.bool(0.5) {
+            cell.env.clear();
+        }
+        mon.count("cells_with_a_designed_base");
+    }
     let mode = if rng.bool(0.5) { CheckMode::FirstCollisionOnly } else { CheckMode::AllCollsions };
     cell.safety = if rng.bool(0.5) { SafetySpec::touch(mode) } else { cell.random_safety(rng, mode) };
     if cell.safety.to_robot_default > 0.02 {
